@@ -17,7 +17,19 @@ def main():
         sys.exit(mod.main(chk, tier, sys.argv[3:]))
     if "--replay" in sys.argv:
         sys.exit(replay(chk, sys.argv[sys.argv.index("--replay") + 1]))
-    sys.exit(framework.run_check(chk, tier))
+    try:
+        rc = framework.run_check(chk, tier)
+    except Exception as e:  # noqa
+        # last resort: the check itself broke (a shape of the implementation's output that no driver path expected).
+        # The property is then not shown to hold: report it as an unchecked obligation instead of dying silently.
+        import traceback
+        import common
+        tb = traceback.format_exc()
+        path = common.write_replay(pid, {"property": pid, "kind": "unchecked-obligation",
+                                         "broken": "the check could not be completed: " + repr(e), "detail": tb[-3000:]})
+        print(f"VIOLATION property={pid} replay={path} no-failing-input-found", flush=True)
+        rc = 1
+    sys.exit(rc)
 
 
 def replay(chk, path):
